@@ -55,6 +55,7 @@ struct dstack {
 };
 static struct dstack DS[GM_MAXLP];
 static _Atomic int in_rollback[RSV_MAXT];
+static double cb_max_gvt; /* largest GVT reported, tracked by the call-back (independent of the trace buffer) */
 static _Atomic uint64_t n_rb_digest, n_rb_at, n_rb_between, n_fossil_then_rb, n_spec_true_rb, n_silent_send_leak;
 
 static uint64_t lp_digest(const struct lp_ctx *lp)
@@ -78,6 +79,10 @@ static unsigned count_past(const struct lp_ctx *lp, unsigned upto)
 static void ev_cb(const struct rsv_rec *r)
 {
 	switch(r->kind) {
+		case RSV_EV_GVT:
+			if(r->t > cb_max_gvt)
+				cb_max_gvt = r->t; /* DET: one thread at a time; FREE: benign race between equal values of a round */
+			break;
 		case RSV_EV_PROCESS: {
 			uint64_t id = r->a;
 			if(id >= GM_MAXLP)
@@ -202,6 +207,7 @@ static void ev_cb(const struct rsv_rec *r)
 void rt_oracles_begin(void)
 {
 	memset(DS, 0, sizeof DS);
+	cb_max_gvt = 0;
 	if(!RT.cfg.serial) {
 		rsv_trace_enable(TRACE_CAP);
 		rsv_ev_callback = ev_cb;
@@ -609,7 +615,8 @@ static void walk_trace(void)
 		}
 	/* C07 (trace form): a run that was not stopped returns only when every predicate held below the final GVT */
 	if(g->stop_lp < 0 && res->verdict != RSV_FAIL) {
-		int tt_reached = RT.cfg.termination_time != 0 && max_gvt >= RT.cfg.termination_time;
+		/* an unset termination time is SIMTIME_MAX: a GVT of SIMTIME_MAX (nothing left anywhere) reaches it */
+		int tt_reached = max_gvt >= (RT.cfg.termination_time != 0 ? RT.cfg.termination_time : SIMTIME_MAX);
 		res->cls[K_EARLY_END] = tt_reached;
 		if(!tt_reached)
 			for(unsigned lp = 0; lp < g->n_lps; lp++)
@@ -1108,13 +1115,15 @@ void rt_oracles_end(const char *stats_path)
 			}
 	}
 	/* end state */
-	int all_frozen = 1;
-	for(unsigned i = 0; i < g->n_lps; i++)
+	int all_frozen = 1, all_pred = 1;
+	for(unsigned i = 0; i < g->n_lps; i++) {
 		all_frozen &= gm_out.rep[i].frozen != 0;
+		all_pred &= gm_out.rep[i].pred != 0;
+	}
 	int stopped = g->stop_lp >= 0;
-	if(!stopped && !all_frozen && RT.cfg.termination_time == 0) {
+	if(!stopped && !all_pred && RT.cfg.termination_time == 0 && (RT.cfg.serial || cb_max_gvt < SIMTIME_MAX)) {
 		for(unsigned i = 0; i < g->n_lps; i++)
-			if(!gm_out.rep[i].frozen) {
+			if(!gm_out.rep[i].pred) {
 				rt_fail(RT.cfg.serial ? "C10" : "C07",
 				    "the run returned although the termination predicate of LP %u does not hold on its final state (%u of %u events handled; "
 				    "no RootsimStop, no termination time)",
@@ -1122,7 +1131,7 @@ void rt_oracles_end(const char *stats_path)
 				break;
 			}
 	}
-	if(!stopped && all_frozen) {
+	if(!stopped && all_frozen && g->post_goal == 0) {
 		for(unsigned i = 0; i < g->n_lps; i++)
 			if(gm_out.rep[i].digest != RT.ref.fini_digest[i]) {
 				rt_fail(eq_prop,
